@@ -748,14 +748,27 @@ def paths_reaching(body, target, symbol_of_call, start=0, max_states=20000):
                 if rv['k'] == 'use':
                     iv = op_int(rv['op'])
                     l = op_local(rv['op'])
+                    pl_ = op_place(rv['op'])
                     if iv is not None:
                         val = ('c', bool(iv))
                     elif l is not None:
                         val = env.get(l)
+                    elif pl_ is not None and len(pl_['p']) == 1 and isinstance(pl_['p'][0], dict) and 'f' in pl_['p'][0]:
+                        # a component of a tuple built on the way: `match (a, b) { (true, _) => … }`
+                        tv = env.get(pl_['l'])
+                        if tv is not None and tv[0] == 't' and pl_['p'][0]['f'] < len(tv[1]):
+                            val = tv[1][pl_['p'][0]['f']]
+                elif rv['k'] == 'aggregate' and rv.get('ak') == 'tuple':
+                    comps = []
+                    for f_ in rv['fields']:
+                        iv = op_int(f_)
+                        l = op_local(f_)
+                        comps.append(('c', bool(iv)) if iv is not None else (env.get(l) if l is not None else None))
+                    val = ('t', comps)
                 elif rv['k'] == 'un' and rv.get('op') == 'Not':
                     l = op_local(rv['o'])
                     v = env.get(l) if l is not None else None
-                    if v is not None:
+                    if v is not None and v[0] in ('c', 's'):
                         val = ('c', not v[1]) if v[0] == 'c' else ('s', v[1], not v[2])
                 env[st['place']['l']] = val
             t = blk['term']
@@ -771,12 +784,23 @@ def paths_reaching(body, target, symbol_of_call, start=0, max_states=20000):
                     break
                 if not t['dest']['p']:
                     s = symbol_of_call(t)
-                    env[t['dest']['l']] = ('s', s, True) if s is not None else None
+                    if isinstance(s, tuple):
+                        env[t['dest']['l']] = ('s', s[0], bool(s[1]))
+                    else:
+                        env[t['dest']['l']] = ('s', s, True) if s is not None else None
                 bb = t['t']
                 continue
             if k == 'switch':
                 l = op_local(t['d'])
                 v = env.get(l) if l is not None else None
+                if v is None and op_place(t['d']) is not None:
+                    pl_ = op_place(t['d'])
+                    if len(pl_['p']) == 1 and isinstance(pl_['p'][0], dict) and 'f' in pl_['p'][0]:
+                        tv = env.get(pl_['l'])
+                        if tv is not None and tv[0] == 't' and pl_['p'][0]['f'] < len(tv[1]):
+                            v = tv[1][pl_['p'][0]['f']]
+                if v is not None and v[0] == 't':
+                    v = None
                 tg = dict((a, c) for a, c in t['targets'])
                 if v is not None and v[0] == 'c':
                     bb = tg.get(int(v[1]), t['otherwise'])
